@@ -18,7 +18,7 @@ for d in sorted(os.listdir(os.path.join(V, "contracts"))):
         "thorough_cmd": f"./check {d} --tier thorough",
         "evidence_file": f"/verif/evidence/{d}.json",
         "replay_cmd_template": f"./check {d} --show-replay {{path}}",
-        "engine": "overlay+kani",
+        "engine": m.get("engine", "overlay+kani"),
         "level_claimed": {"category": m.get("level", "proof"), "text": m["level_text"], "design_ref": m.get("design_ref", "DESIGN.md §3")},
         "level_note": m["level_note"],
         "technique": m["technique"],
@@ -41,8 +41,12 @@ man = {
         "add_only": True,
     },
     "engines": [
-        {"name": "overlay+kani", "path": "/verif/tools/driver.py", "serves_properties": sorted(claimed),
+        {"name": "overlay+kani", "path": "/verif/tools/driver.py", "serves_properties": sorted(c["property_id"] for c in checks if c["engine"] == "overlay+kani"),
          "kind_free_text": "mechanical overlay of contract modules onto the real crate; Kani 0.68/CBMC 6.11 function contracts and harness-asserted contracts; Verus on mechanically extracted functions; counterexample replay on the natively compiled real code"},
+        {"name": "rustc-obligations", "path": "/verif/contracts/C24/special.py", "serves_properties": sorted(c["property_id"] for c in checks if c["engine"] == "rustc-obligations"),
+         "kind_free_text": "auto-trait obligations (Send + Sync) discharged by rustc's trait solver on an overlay module; native concurrent-execution grid as bounded second clause"},
+        {"name": "generator+rustc", "path": "/verif/contracts/C26/special.py", "serves_properties": sorted(c["property_id"] for c in checks if c["engine"] == "generator+rustc"),
+         "kind_free_text": "bounded stand-in, not contract-based: the real stub generator run on an enumerated schema family, every generated stub compiled offline by the repository toolchain"},
     ],
     "checks": checks,
     "not_applicable": not_app,
